@@ -162,7 +162,9 @@ let run_case oc (c : case) =
           List.iter (fun t -> Printf.fprintf oc "F %d %s\n" i (match t with
             | TrFollowFinalLink -> "follows_final_symlink" | TrRenameNonEmptyDir -> "renames_nonempty_dir"
             | TrTypeChange -> "type_change" | TrUncleanLinkTarget -> "unclean_link_target"
-            | TrLinkThroughLink -> "link_target_through_link" | TrClimbingLink -> "link_climbs_above_root"))
+            | TrLinkThroughLink -> "link_target_through_link" | TrClimbingLink -> "link_climbs_above_root"
+            | TrDanglingParent -> "dangling_symlink_parent"
+            | TrRelativeName -> "relative_name"))
             (triggers cfg o !w);
           let before = List.length (dump_trace !w) in
           let (r, w') = step base backup o !w in
